@@ -5,6 +5,7 @@ package flow
 import (
 	"go/token"
 	"go/types"
+	"strings"
 
 	"golang.org/x/tools/go/ssa"
 
@@ -174,7 +175,34 @@ func (w *Walker) back(v ssa.Value, seen map[ssa.Value]bool, fr *frame) {
 	}
 }
 
+// IsCopy reports whether the call returns a copy of its single operand
+// (bytes.Clone(b), slices.Clone(s), maps.Clone(m), strings.Clone(s),
+// x.DeepCopy(), x.DeepCopyObject()): the result's content is the operand's.
+func IsCopy(c ssa.CallInstruction) bool {
+	cc := c.Common()
+	name := cfgx.CalleeName(c)
+	if i := strings.Index(name, "["); i > 0 {
+		name = name[:i] // generic instantiation
+	}
+	switch name {
+	case "bytes.Clone", "slices.Clone", "maps.Clone", "strings.Clone":
+		return len(cc.Args) == 1
+	}
+	if strings.HasSuffix(name, ").DeepCopy") || strings.HasSuffix(name, ").DeepCopyObject") {
+		return (cc.IsInvoke() && len(cc.Args) == 0) || (!cc.IsInvoke() && len(cc.Args) == 1)
+	}
+	return false
+}
+
 func (w *Walker) call(c *ssa.Call, seen map[ssa.Value]bool, fr *frame) {
+	if IsCopy(c) && !(w.Opts.ThroughCall != nil && w.Opts.ThroughCall(c)) {
+		for _, a := range c.Call.Args {
+			w.back(a, seen, fr)
+		}
+		if c.Call.IsInvoke() {
+			w.back(c.Call.Value, seen, fr)
+		}
+	}
 	if w.Opts.ThroughCall != nil && w.Opts.ThroughCall(c) {
 		for _, a := range c.Call.Args {
 			w.back(a, seen, fr)
@@ -415,6 +443,66 @@ func AccessPath(v ssa.Value) (rootv ssa.Value, path string, ok bool) {
 		}
 	}
 	return v, join(parts), false
+}
+
+// AccessPathC is AccessPath that looks through copies (x.DeepCopy().F is x.F,
+// bytes.Clone(x.F) is x.F) and interface conversions.
+func AccessPathC(v ssa.Value) (rootv ssa.Value, path string, ok bool) {
+	var acc []string
+	for i := 0; i < 16; i++ {
+		r, p, _ := AccessPath(v)
+		if p != "" {
+			acc = append([]string{p}, acc...)
+		}
+		switch x := r.(type) {
+		case *ssa.Alloc:
+			// a local that only ever holds a copy of another variable
+			// (`step := fn`, a by-value parameter of an inlined helper)
+			if src := soleStore(x); src != nil {
+				v = src
+				continue
+			}
+		case *ssa.Call:
+			if IsCopy(x) {
+				if x.Call.IsInvoke() {
+					v = x.Call.Value
+				} else {
+					v = x.Call.Args[0]
+				}
+				continue
+			}
+		case *ssa.MakeInterface:
+			v = x.X
+			continue
+		case *ssa.ChangeInterface:
+			v = x.X
+			continue
+		}
+		return r, strings.Join(acc, "."), len(acc) > 0
+	}
+	return v, strings.Join(acc, "."), false
+}
+
+// soleStore: the value stored by the only whole-variable store to a, if any.
+func soleStore(a *ssa.Alloc) ssa.Value {
+	if a.Referrers() == nil {
+		return nil
+	}
+	var val ssa.Value
+	n := 0
+	for _, r := range *a.Referrers() {
+		if st, ok := r.(*ssa.Store); ok && st.Addr == a {
+			n++
+			val = st.Val
+		}
+	}
+	if n != 1 {
+		return nil
+	}
+	if _, isConst := val.(*ssa.Const); isConst {
+		return nil
+	}
+	return val
 }
 
 func join(rev []string) string {
